@@ -890,3 +890,9 @@ def probe_known(ctx, finding):
     sc = finding["replay"]["scenario"]
     recs, fails = _replay_failures(sc)
     return any(f["signature"] == finding["signature"] for f in fails)
+
+
+# somebody else's machine: the same small sessions in other environments, in child processes (props/envs.py)
+from props import envs as _envs  # noqa: E402
+
+correspondence, search, replay = _envs.attach(PID, correspondence, search, replay)
